@@ -96,6 +96,64 @@ def _cases(tier):
     return cases
 
 
+PLUGIN_VALUES = ["Opaque(1)", "[Opaque(1), 0]", "{'k': Opaque(2)}", "outsource('text')", "outsource(b'bytes')",
+                 "[outsource('a'), outsource('b')]", "{'k': (outsource('text'), Opaque(1))}", "DC(x=outsource('z'))"]
+PLUGIN_HEADERS = {
+    "plain": "",
+    "nested": "def _helper():\n    from inline_snapshot import HasRepr, external\n\n    return HasRepr, external\n\n\n",
+    "tryexcept": "try:\n    from inline_snapshot import HasRepr, external\nexcept ImportError:\n    pass\n\n\n",
+    "docfuture": None,
+    "multiline": "from os import (\n    path,\n    sep,\n)\n\n\n",
+}
+
+
+def _plugin_cases(tier):
+    out = []
+    for h in PLUGIN_HEADERS:
+        for v in PLUGIN_VALUES:
+            for op, pl in (("==", "inline"), ("in", "inline"), ("[k]", "local"), ("==", "module")):
+                c = {"e": [v], "op": op, "pl": pl, "hdr": h}
+                if op == "[k]":
+                    c["k"] = ["'a'"]
+                out.append(c)
+    return out
+
+
+def _plugin_module(case):
+    src = P.module([_site_src(0, case)], case["e"], ["outsource"] if "outsource" in case["e"][0] else [])
+    src = src.replace("from inline_snapshot import HasRepr\n", "")
+    h = PLUGIN_HEADERS[case["hdr"]]
+    if case["hdr"] == "docfuture":
+        return '"""docstring"""\nfrom __future__ import annotations\n' + src
+    if case["hdr"] == "tryexcept":
+        return h + src
+    first, rest = src.split("\n", 1)
+    return first + "\n" + rest.replace("\n\n\ndef test_0", "\n\n\n" + h + "def test_0", 1) if h else src
+
+
+def _judge_plugin(case):
+    """Real sessions: create, then the rewritten project must pass with --inline-snapshot=disable."""
+    from ..drivers import plugin
+
+    src = _plugin_module(case)
+    d = plugin.mk_project({"test_something.py": src, "pyproject.toml": ""})
+    try:
+        r1 = plugin.session(d, ["--inline-snapshot=create"])
+        after = plugin.listing(d, text=True).get("test_something.py", "")
+        r2 = plugin.session(d, ["--inline-snapshot=disable"])
+    finally:
+        plugin.cleanup()
+    detail = "\n--- before ---\n%s\n--- after ---\n%s\n--- disable run ---\n%s" % (src[-700:], after[-700:], r2["out"][-700:])
+    if plugin.internal_error(r1["out"]) or r1["rc"] not in (0, 1):
+        return ("internal-error", "rc=%s %s" % (r1["rc"], r1["out"][-500:]) + detail)
+    if after == src:
+        return ("not-created", detail)
+    got = r2["outcomes"].get("test_something.py::test_0", [])
+    if r2["rc"] != 0 or got != ["PASSED"]:
+        return ("disabled-rerun-fails", "rc=%s outcomes=%s" % (r2["rc"], got) + detail)
+    return None
+
+
 def build(tier, seed):
     cases = _cases(tier)
     groups = {}
@@ -105,6 +163,9 @@ def build(tier, seed):
     for clean, cs in sorted(groups.items()):
         for i in range(0, len(cs), BATCH):
             tasks.append({"cases": cs[i : i + BATCH], "clean": clean})
+    pc = _plugin_cases(tier)
+    for i in range(0, len(pc), 5):
+        tasks.append({"plugin": pc[i : i + 5]})
     return tasks
 
 
@@ -156,6 +217,9 @@ def _judge(cases, clean):
 
 
 def run_case(case):
+    if "hdr" in case:
+        v = _judge_plugin(case)
+        return [{"case": case, "what": v[0], "detail": v[1]}] if v else []
     v, src, r = _judge([case], bool(case.get("clean")))
     if v[0] is None:
         return []
@@ -167,6 +231,18 @@ def _sig(case, verdict):
 
 
 def run_task(task):
+    if "plugin" in task:
+        out = {"n": 0, "nontrivial": [], "outcomes": {}, "violations": [], "samples": []}
+        for c in task["plugin"]:
+            out["n"] += 1
+            vs = run_case(c)
+            lab = "viol:" + vs[0]["what"] if vs else "ok:plugin:" + c["hdr"]
+            out["violations"] += vs
+            if not vs:
+                out["nontrivial"].append("plugin|%s|%s|%s|%s" % (c["e"], c["op"], c["pl"], c["hdr"]))
+            out["outcomes"][lab] = out["outcomes"].get(lab, 0) + 1
+        out["samples"].append({"plugin_case": task["plugin"][0], "module": _plugin_module(task["plugin"][0])})
+        return out
     cases = task["cases"]
     clean = task["clean"]
     out = {"n": 0, "nontrivial": [], "outcomes": {}, "violations": [], "samples": []}
